@@ -35,7 +35,7 @@ NS = uuid.UUID("5a0c6b1e-0000-4000-8000-00000000c019")
 BASE = 1_000_000_000_000_000_000
 STEP = 1_000_000_000_000
 KIND = {1: "RUN", 2: "TAGGED", 3: "CHAINED", 4: "CALIBRATION"}
-ERR_NOTFOUND, ERR_OTHER, ERR_SHAPE = 999001, 999002, 999003
+ERR_NOTFOUND, ERR_OTHER, ERR_SHAPE, ERR_UNSTORED = 999001, 999002, 999003, 999004
 
 
 def cname(n):
@@ -47,7 +47,11 @@ def tname(n):
 
 
 def uid(n):
-    return uuid.uuid5(NS, str(n))
+    """Deterministic ids: version-4 shaped (what Butler.put generates); n >= 200 are version 5 (the form for which a
+    direct-mode ingest may replace an existing datastore record)."""
+    if n >= 200:
+        return uuid.uuid5(NS, str(n))
+    return uuid.UUID(int=(0xC19 << 100) + n + 1, version=4)
 
 
 def did(d):
@@ -100,7 +104,10 @@ class Repo:
         for n, t, d, run, v in st["dsets"]:
             obj = [v] if codes[t] == 2 else {"v": v}
             r = self.ref(n, t, d, run)
-            self.butler.put(obj, r.expanded(reg.expandDataId(r.dataId)))
+            if v < 0:      # registry entry only, nothing stored (an artifact that was never written / was unstored)
+                reg._importDatasets([r])
+            else:
+                self.butler.put(obj, r.expanded(reg.expandDataId(r.dataId)))
         defs = {n: (t, d, run) for n, t, d, run, _ in st["dsets"]}
         for c, n in st["tags"]:
             reg.associate(cname(c), [self.ref(n, *defs[n])])
@@ -109,7 +116,7 @@ class Repo:
 
     # -- observation ------------------------------------------------------------------------
     def observe(self):
-        from lsst.daf.butler import CollectionType
+        from lsst.daf.butler import CollectionType, DatasetExistence
         reg, butler = self.reg, self.butler
         butler.registry.refresh()
         obs = {"probe_errors": {}}
@@ -147,7 +154,7 @@ class Repo:
         dsets, content, tags, calibs = [], [], [], []
         n_of = getattr(self, "n_of", None)
         if n_of is None:
-            n_of = self.n_of = {uid(n): n for n in range(0, 400)}
+            n_of = self.n_of = {uid(n): n for n in range(0, 300)}
 
         def dnum(ref):
             return int(str(ref.dataId["instrument"])[1:]) * NDET + int(ref.dataId["detector"])
@@ -175,7 +182,13 @@ class Repo:
                                 else:
                                     v = ERR_SHAPE
                             except FileNotFoundError:
-                                v = ERR_NOTFOUND
+                                # no datastore record at all (never stored) vs. a record whose artifact is gone
+                                try:
+                                    known = bool(butler.exists(r, full_check=False) & DatasetExistence.DATASTORE)
+                                except Exception as e:  # noqa: BLE001
+                                    perr("exists", e)
+                                    known = True
+                                v = ERR_NOTFOUND if known else ERR_UNSTORED
                             except Exception as e:  # noqa: BLE001
                                 perr("get", e)
                                 v = ERR_OTHER
